@@ -98,3 +98,45 @@ def _anc(n):
     while p is not None:
         yield p
         p = parent(p)
+
+
+_core_run = run
+STICKY = ("self._read_exception", "self._write_exception", "self._connection_error", "self._connection_terminated")
+
+
+def _sticky_only_connection_failures(ctx: Context) -> None:
+    """A caller abandoning its request (cancellation, any BaseException that is not an Exception) is that caller's own event:
+    it must never be recorded in the connection-wide failure fields, which fail every other stream on their next read/write."""
+    rep = ctx.rep
+    for tree, N in trees(ctx):
+        c = N.cls("http2", "AsyncHTTP2Connection")
+        n = 0
+        for f in c.methods.values():
+            for st in own_nodes(f.node):
+                if not (isinstance(st, ast.Assign) and norm(st.targets[0]) in STICKY):
+                    continue
+                if isinstance(st.value, ast.Constant) and st.value.value in (None, False):
+                    continue
+                hs = [a for a in _anc(st) if isinstance(a, ast.ExceptHandler)]
+                if not hs or f.name == "__init__":
+                    continue
+                n += 1
+                h = hs[0]
+                names = []
+                if h.type is None:
+                    names = ["BaseException"]
+                else:
+                    for e in (h.type.elts if isinstance(h.type, ast.Tuple) else [h.type]):
+                        names.append(ctx.escape.exc_name(f.module, e) or ast.unparse(e))
+                wide = [x for x in names if x in ("BaseException", "Cancelled", "CancelledError", "GeneratorExit", "KeyboardInterrupt")]
+                rep.ob("C12.R6", fkey(tree, f, f"sticky:{norm(st.targets[0])}"), not wide, where(f, st),
+                       f"`{norm(st.targets[0])}` is recorded only for {names}" if not wide else
+                       f"`{norm(st.targets[0])}` is recorded in an `except {', '.join(names)}` handler: a caller cancelled while it performs the shared read/write poisons the connection - "
+                       "every other stream then fails (with that caller's cancellation) instead of running to completion")
+        rep.floor("C12.R6", f"connection-wide failure stores inside handlers ({tree})", n, 2)
+
+
+def run(ctx: Context) -> None:  # noqa: F811
+    _core_run(ctx)
+    ctx.rep.rule("C12.R6", "connection-wide failure fields are set only for Exceptions (a caller's own cancellation never fails the other streams)")
+    _sticky_only_connection_failures(ctx)
